@@ -816,7 +816,7 @@ theorem add_missing_data_tie (src d : DataSess) (B sk : Nat)
     (hns : src.entries.length * Impl.lpm src.p < 2^64) (hnd : d.entries.length * Impl.lpm d.p < 2^64)
     (hbig : ∀ clen slen, dataLenLines d = .ok clen → dataLenLines src = .ok slen → clen * B < 2^64 ∧ slen + B < 2^64)
     (hlp : ∀ slen n, dataLenLines src = .ok slen → n < slen → LinePosFits src.p n 0 src.entries) :
-    add_missing_data src.view ⟨B, d.view, sk⟩ = (catchUpPlan src d B).map (fun acts => (acts, ())) := by
+    add_missing_data src.view { bucket_size := B, data := d.view, lines_to_skip := sk } = (catchUpPlan src d B).map (fun acts => (acts, ())) := by
   unfold add_missing_data catchUpPlan
   simp only [data_len_tie src hps hns, data_len_tie d hpd hnd]
   cases hs : dataLenLines src with
@@ -887,5 +887,102 @@ theorem time_range_update_tie (r : Option (Nat × Nat)) (ts : Nat) :
   | some ab =>
     obtain ⟨a, b⟩ := ab
     by_cases h : b ≥ ts <;> simp [h]
+
+end BS.Gen
+
+namespace BS.Gen
+open BS.Impl
+
+/-! ### `DownSampledData::process` (what every append does to a cache) -/
+
+/-- the cache's in-memory state as the translated `process` sees it -/
+def toView (c : CacheSess) : CacheView :=
+  { bucket_size := c.B, data := c.d.view, lines_to_skip := c.skip, samples_in_bin := c.inBin,
+    ts_sum := c.tsSum, resample_state := c.vSum }
+
+/-- carrying out what the translated `process` returns: the new accumulator fields, and the one
+`push_data` it may have asked for on the cache's own data file -/
+def runProcess (st : Store) (c : CacheSess) (r : R ((CacheView × List CatchUp) × Unit)) : R (Store × CacheSess) :=
+  match r with
+  | .error f => .error f
+  | .ok ((v, acts), _) =>
+    let c' : CacheSess := { c with skip := v.lines_to_skip, inBin := v.samples_in_bin, tsSum := v.ts_sum, vSum := v.resample_state }
+    match acts with
+    | [] => .ok (st, c')
+    | [CatchUp.push rts rline] =>
+      match pushData st c.d rts rline with
+      | .error f => .error f
+      | .ok (st', d') => .ok (st', { c' with d := d' })
+    | _ => .error .panic
+
+/-- **`DownSampledData::process` as translated from the current source is the model's `cacheProcess`**:
+same skipping, same sums (u64 values, u128 timestamps), same bucket completion, same mean and its
+`assert!`, the same single `push_data` of the bucket's line, the same reset -/
+theorem process_tie (st : Store) (c : CacheSess) (ts : Nat) (line : Bytes)
+    (hts : ts < 2^64) (hsum : c.tsSum + ts < 2^128) (hbin : c.inBin + 1 < 2^64) :
+    cacheProcess st c ts line = runProcess st c (DownSampledData_process (toView c) ts line) := by
+  unfold cacheProcess DownSampledData_process toView runProcess
+  by_cases hsk : c.skip > 0
+  · have h1 : 1 ≤ c.skip := by omega
+    simp [hsk, sub_ok h1]
+  · simp only [hsk, if_false, bind_ok]
+    by_cases hv : c.vSum + linDecode line ≥ 2^64
+    · have : ¬ (c.vSum + linDecode line < 2^64) := by omega
+      simp [hv, Rs.add, this]
+    · have hv' : c.vSum + linDecode line < 2^64 := by omega
+      simp only [hv, if_false, add_ok hv', bind_ok, Rs.add128, hsum, if_true, add_ok hbin]
+      by_cases hfull : c.inBin + 1 ≥ c.B
+      · simp only [hfull, if_true]
+        by_cases hB : c.B = 0
+        · simp [hB, Rs.div]
+        · simp only [hB, if_false, div_ok hB, bind_ok]
+          by_cases hr : (c.tsSum + ts) / c.B > ts
+          · have h64 : ¬ ((c.tsSum + ts) / c.B ≤ ts) := by omega
+            simp only [hr, if_true, Rs.tryU64]
+            by_cases h2 : (c.tsSum + ts) / c.B < 2^64
+            · simp [h2, h64]
+            · simp [h2]
+          · have h2 : (c.tsSum + ts) / c.B < 2^64 := by omega
+            have h3 : (c.tsSum + ts) / c.B ≤ ts := by omega
+            simp only [hr, if_false, Rs.tryU64, h2, if_true, expect_some, bind_ok, h3]
+            simp [DataSess.view]
+            cases pushData st c.d ((c.tsSum + ts) / c.B) (linEncode c.d.p ((c.vSum + linDecode line) / c.B)) with
+            | error f => rfl
+            | ok r => rfl
+      · simp [hfull]
+
+end BS.Gen
+
+namespace BS.Gen
+open BS.Impl
+
+/-! ### `Sampler::process` (the accumulator of a resampling read) -/
+
+/-- what the translated `Sampler::process` returns, as the model's processor result: the two pushes to the
+caller's vectors become one output entry (the harness's `Lin` resampler encodes the mean value) -/
+def runSampler (s : Sampler) (r : R ((Sampler × List CatchUp) × Unit)) : PRes Sampler :=
+  match r with
+  | .error _ => .fault
+  | .ok ((s', acts), _) =>
+    match acts with
+    | [] => .cont { s' with out := s.out }
+    | [CatchUp.outTs t, CatchUp.outItem v] => .cont { s' with out := s.out ++ [⟨t, linEncode s.p v⟩] }
+    | _ => .fault
+
+/-- **`Sampler::process` as translated from the current source is the model's `samplerProc`** (sums in
+u128 / u64, bucket completion, the mean, the reset), for a bucket size > 0 and sums within their types -/
+theorem sampler_process_tie (s : Sampler) (ts : Nat) (pl : Bytes) (hb : s.bucket ≠ 0)
+    (hsum : s.tsSum + ts < 2^128) (hn : s.sampled + 1 < 2^64) (hmean : (s.tsSum + ts) / s.bucket < 2^64) :
+    samplerProc s ts pl = runSampler s (Sampler_process s ts pl) := by
+  unfold samplerProc Sampler_process runSampler
+  simp only [Rs.add128, hsum, if_true, bind_ok]
+  by_cases hv : s.vSum + linDecode pl ≥ 2^64
+  · have : ¬ (s.vSum + linDecode pl < 2^64) := by omega
+    simp [hv, Rs.add, this]
+  · have hv' : s.vSum + linDecode pl < 2^64 := by omega
+    simp only [hv, if_false, add_ok hv', bind_ok, add_ok hn]
+    by_cases hfull : s.sampled + 1 ≥ s.bucket
+    · simp [hfull, div_ok hb, Rs.tryU64, hmean]
+    · simp [hfull]
 
 end BS.Gen
